@@ -36,6 +36,11 @@ func main() {
 	os.Setenv("GOSUMDB", "off")
 	os.Setenv("GOTOOLCHAIN", "local")
 	os.Setenv("GOWORK", "off")
+	if f := os.Getenv("SYMGO_SMTLOG"); f != "" {
+		if w, err := os.Create(f); err == nil {
+			smtLog = w
+		}
+	}
 	if len(os.Args) < 2 {
 		fmt.Fprintln(os.Stderr, "usage: symgo check|run|replay|list ...")
 		os.Exit(2)
@@ -47,6 +52,8 @@ func main() {
 		os.Exit(cmdRun(os.Args[2:]))
 	case "replay":
 		os.Exit(cmdReplay(os.Args[2:]))
+	case "manifest":
+		os.Exit(cmdManifest())
 	case "list":
 		for _, id := range checkIDs() {
 			fmt.Println(id)
